@@ -10,6 +10,7 @@ from vlib.props.C13 import step_form, tick_domain
 
 ID = "C14"
 DESIGN_REF = "3/C14"
+ROTATE_TZ = True  # shards run under different local time zones (the property must hold in all of them)
 RULE = (
     "Linear domains and counts as in C13; time domains at ms resolution in 1900-2200, spans 10 ms..200 years, either orientation, "
     "default and explicit counts 2..50. Oracle: orientation preserved; no end moves inward (linear: beyond 1e-6 step of float "
